@@ -141,11 +141,28 @@ def pair_rule(ctx, rule, classes=("success", "error")):
                            "storage `%s` is owned by the function; an error exit drops it, which undoes the "
                            "unfinished transaction" % (b.local_name(recv[0]) or "_%d" % recv[0]), b.loc(o))
                     continue
-                p = cfg.find_path(b, [o], errb, avoid=closes, leave_start=True)
-                ctx.ob(rule, inst + ":error", p is None,
-                       "every error path from transaction() passes commit/abort" if p is None else
-                       "error exit reachable from transaction() with the nesting counter still raised: %s" %
-                       cfg.path_str(b, p), b.loc(o),
-                       key="%s|%s|%s|error-exit-without-commit" % (ctx.pid, rule, norm(b.npath)))
+                # one obligation per leaking error exit, keyed by the call whose failure leaks the counter, so that a
+                # NEW leaking `?` in a function that already has a recorded finding is still reported
+                leaks = []
+                for e in errb:
+                    p = cfg.find_path(b, [o], [e], avoid=closes, leave_start=True)
+                    if p is None:
+                        continue
+                    failed = "?"
+                    for blk_i in reversed(p[:-1]):
+                        tt = b.blocks[blk_i]["term"]
+                        if tt["k"] == "call":
+                            nme = cfg.callee(tt) or ""
+                            if nme and not cfg.is_transparent(nme) and not nme.endswith("from_residual"):
+                                failed = norm(nme).split("::")[-1]
+                                break
+                    leaks.append((e, failed, p))
+                if not leaks:
+                    ctx.ob(rule, inst + ":error", True, "every error path from transaction() passes commit/abort", b.loc(o))
+                for e, failed, p in leaks:
+                    ctx.ob(rule, "%s:error:%s" % (inst, failed), False,
+                           "error exit reachable from transaction() with the nesting counter still raised when `%s` fails: %s" % (
+                               failed, cfg.path_str(b, p)), b.loc(e),
+                           key="%s|%s|%s|error-exit-without-commit|%s" % (ctx.pid, rule, norm(b.npath), failed))
     ctx.floor(rule, "functions bracketing a storage transaction", len(fns), PAIR_FLOOR)
     return fns
